@@ -389,18 +389,30 @@ def _frame_eq(task, s, pid, loc, a, b, guard=None):
 
 # ---------------------------------------------------------------------------------------
 
+_HASQ = {}
+
+
 def has_quantifier(f):
+    """memoised per hypothesis (the same path-condition conjuncts are asked about for every obligation of a path;
+    the cache keeps the term alive, so its id cannot be re-used)"""
+    k = f.get_id()
+    hit = _HASQ.get(k)
+    if hit is not None and hit[0].eq(f):
+        return hit[1]
     seen = set()
     stack = [f]
+    r = False
     while stack:
         x = stack.pop()
         if x.get_id() in seen:
             continue
         seen.add(x.get_id())
         if z3.is_quantifier(x):
-            return True
+            r = True
+            break
         stack.extend(x.children())
-    return False
+    _HASQ[k] = (f, r)
+    return r
 
 
 def _cli_first(task, timeout_ms, threads=12):
